@@ -807,7 +807,7 @@ func main() {
 
 	nrand, ncrash := 260, 4
 	if a.Tier == "thorough" {
-		nrand, ncrash = 6000, 60
+		nrand, ncrash = 2500, 24
 	}
 	type job struct {
 		rng         *common.Rng
